@@ -13,9 +13,11 @@
     `entriesSetOrder` is FALSE (`c16_perm_invariant_witness`, the fixed defect D3) and holds under the
     decidable exclusion `equalLengthTie = false` (`c16_perm_invariant_partial`), where the old and
     the new code agree (`c16_setOrder_eq_entries`).
-  * `NoSideEffect` — FALSE today for parsers with config files (`c16_no_side_effect_witness`,
-    finding C16-print-help-before-config) and for subgroup parsers (D9, property C08);
-    `c16_no_side_effect_partial` without either.
+  * `NoSideEffect` — FALSE today when the later command line names a config file
+    (`c16_no_side_effect_witness`, open finding C16-print-help-before-argv-config) and for subgroup
+    parsers (D9, property C08); `c16_no_side_effect_partial` without either.  The constructor
+    `config_path=` variant (finding C16-print-help-before-config) was repaired by fix e83a7f8: the
+    old `print_help` is kept as `printHelpOld` with its witness `c16_no_side_effect_old_ctor_witness`.
 -/
 import SpVerif.Model.Help
 import SpVerif.Props.C03
@@ -725,49 +727,121 @@ example : ∃ e, entries cfgBoth .auto witnessForest noSources = .ok [e] ∧
 /-- the full statement, for any kind of table and any way of running it -/
 def NoSideEffect : Prop :=
   ∀ (T R : Type) (run : T → List Str → R) (p : Parser T) (args : List Str),
-    p.table = none → p.applied = false →
+    p.table = none → p.ctorApplied = false → p.argvApplied = false →
     (Parser.parse run p.printHelp args).1 = (Parser.parse run p args).1
+
+/-- the same with the `print_help` of the code before fix e83a7f8 -/
+def NoSideEffectOld : Prop :=
+  ∀ (T R : Type) (run : T → List Str → R) (p : Parser T) (args : List Str),
+    p.table = none → p.ctorApplied = false → p.argvApplied = false →
+    (Parser.parse run p.printHelpOld args).1 = (Parser.parse run p args).1
 
 /-- `x: int = 3` at `a`, config file `{a: {x: 9}}` -/
 def witnessFileForest : Forest :=
   [(.node "K0".toList "a".toList
       [{ name := "x".toList, ty := .int, dflt := some "3".toList, aliases := [] }] [] [], [])]
 
-def witnessFileSources : Sources := { inst := [], files := [[("a.x".toList, "9".toList)]] }
+def witnessFile : List (Str × Str) := [("a.x".toList, "9".toList)]
+def witnessFileSources : Sources := { inst := [], files := [witnessFile] }
+def witnessNoFileSources : Sources := { inst := [], files := [] }
 
 def cfgPlain : Cfg := { dash := .underscore, gen := .flat, nest := .default }
 
-/-- **findings C16-print-help-before-config / C16-print-help-before-argv-config**: `print_help()`
-    builds the table before the config files (given to the constructor, or named by `--config_path`
-    on the later command line) were pushed into the wrappers, and the latch keeps that table: the
-    later parse runs on defaults `3` where a parse without `print_help()` runs on `9`. -/
+/-- **finding C16-print-help-before-argv-config (open)**: `print_help()` builds the table before the
+    file named by `--config_path` on the later command line was pushed into the wrappers, and the
+    latch keeps that table: the later parse runs on default `3` where a parse without
+    `print_help()` runs on `9`. -/
 theorem c16_no_side_effect_witness : ¬ NoSideEffect := by
   intro h
   have := h Out Out (fun t _ => t)
-    (helpParser cfgPlain .auto witnessFileForest witnessFileSources) [] rfl rfl
+    (helpParser cfgPlain .auto witnessFileForest witnessNoFileSources [witnessFile] (fun _ => true))
+    [] rfl rfl rfl
   revert this
   decide
 
-/-- **C16 (no side effect, partial).** For a parser without config files whose table does not
-    depend on the arguments `_preprocessing` is called with (no subgroup fields — D9 belongs to
-    C08), a parse after `print_help()` returns what a parse without it returns. -/
+/-- **finding C16-print-help-before-config (repaired by e83a7f8)**: the old `print_help()` did the
+    same to the constructor's `config_path=` files … -/
+theorem c16_no_side_effect_old_ctor_witness : ¬ NoSideEffectOld := by
+  intro h
+  have := h Out Out (fun t _ => t)
+    (helpParser cfgPlain .auto witnessFileForest witnessFileSources) [] rfl rfl rfl
+  revert this
+  decide
+
+/-- … on which the repaired one is harmless -/
+example : (Parser.parse (fun t _ => t)
+      (helpParser cfgPlain .auto witnessFileForest witnessFileSources).printHelp []).1
+    = (Parser.parse (fun t _ => t)
+      (helpParser cfgPlain .auto witnessFileForest witnessFileSources) ([] : List Str)).1 := by decide
+
+/-- **C16 (no side effect, partial).** For a parser whose later command line names no config file
+    and whose table does not depend on the arguments `_preprocessing` is called with (no subgroup
+    fields — D9 belongs to C08), a parse after `print_help()` returns what a parse without it
+    returns — with or without constructor config files (since fix e83a7f8). -/
 theorem c16_no_side_effect_partial {T R : Type} (run : T → List Str → R) (p : Parser T)
     (args : List Str) (ht : p.table = none)
-    (hfiles : p.hasFiles = false) (hsub : ∀ b a₁ a₂, p.build b a₁ = p.build b a₂) :
+    (hfiles : p.namesFiles args = false) (hsub : ∀ b c a₁ a₂, p.build b c a₁ = p.build b c a₂) :
     (Parser.parse run p.printHelp args).1 = (Parser.parse run p args).1 := by
-  simp [Parser.parse, Parser.printHelp, Parser.prep, ht, hfiles, hsub p.applied [] args]
+  simp [Parser.parse, Parser.printHelp, Parser.prep, ht, hfiles,
+    hsub (p.ctorApplied || p.hasCtorFiles) p.argvApplied [] args]
 
-/-- the entries model has no subgroup fields: without config files `print_help()` is harmless -/
+/-- the same for the old code needed "no constructor files" as well -/
+theorem c16_no_side_effect_old_partial {T R : Type} (run : T → List Str → R) (p : Parser T)
+    (args : List Str) (ht : p.table = none) (hctor : p.hasCtorFiles = false)
+    (hfiles : p.namesFiles args = false) (hsub : ∀ b c a₁ a₂, p.build b c a₁ = p.build b c a₂) :
+    (Parser.parse run p.printHelpOld args).1 = (Parser.parse run p args).1 := by
+  simp [Parser.parse, Parser.printHelpOld, Parser.prep, ht, hfiles, hctor,
+    hsub p.ctorApplied p.argvApplied [] args]
+
+/-- the entries model has no subgroup fields: unless the command line names a file, `print_help()`
+    is harmless, whatever files the constructor was given -/
 theorem c16_no_side_effect_entries {R : Type} (run : Out → List Str → R) (cfg : Cfg) (mode : CR)
-    (forest : Forest) (src : Sources) (args : List Str) (hfiles : src.files = []) :
-    (Parser.parse run (helpParser cfg mode forest src).printHelp args).1
-      = (Parser.parse run (helpParser cfg mode forest src) args).1 :=
-  c16_no_side_effect_partial run _ args rfl (by simp [helpParser, hfiles]) (fun _ _ _ => rfl)
+    (forest : Forest) (src : Sources) (argvFiles : List (List (Str × Str))) (names : List Str → Bool)
+    (args : List Str) (hfiles : names args = false) :
+    (Parser.parse run (helpParser cfg mode forest src argvFiles names).printHelp args).1
+      = (Parser.parse run (helpParser cfg mode forest src argvFiles names) args).1 :=
+  c16_no_side_effect_partial run _ args rfl (by simp [helpParser, hfiles]) (fun _ _ _ _ => rfl)
 
 /-- a second `print_help()` / a `print_help()` after a parse never rebuilds the table -/
 theorem printHelp_after_table {T : Type} (p : Parser T) (t : T) (h : p.table = some t) :
     p.printHelp = p := by
-  simp [Parser.printHelp, Parser.prep, h]
+  simp [Parser.printHelp, h]
+
+/-- `_preprocessing` always leaves a table behind -/
+theorem prep_table_some {T : Type} (p : Parser T) (args : List Str) : ∃ t, (p.prep args).table = some t := by
+  unfold Parser.prep
+  cases h : p.table with
+  | some t => exact ⟨t, by simp [h]⟩
+  | none => exact ⟨_, rfl⟩
+
+theorem printHelp_table_some {T : Type} (p : Parser T) : ∃ t, p.printHelp.table = some t := by
+  unfold Parser.printHelp
+  cases h : p.table with
+  | some t => exact ⟨t, by simp [h]⟩
+  | none => exact prep_table_some _ []
+
+/-- **C16 (the text can be produced again).** Producing the help a second, third, … time on the same
+    parser object formats the very same table (the latch `_preprocessing_done`): `print_help()` is
+    idempotent on the parser state — so the repeated texts can only be equal if formatting itself
+    leaves the actions untouched, which the harness checks on the real code (sequences of
+    `print_help` / `format_help` / `--help` on one parser). -/
+theorem c16_rehelp {T : Type} (p : Parser T) : p.printHelp.printHelp = p.printHelp := by
+  obtain ⟨t, ht⟩ := printHelp_table_some p
+  exact printHelp_after_table _ t ht
+
+/-- … and the same after a parse in between -/
+theorem c16_rehelp_after_parse {T R : Type} (run : T → List Str → R) (p : Parser T) (args : List Str) :
+    (Parser.parse run p args).2.printHelp = (Parser.parse run p args).2 := by
+  obtain ⟨t, ht⟩ := prep_table_some { p with ctorApplied := p.ctorApplied || p.hasCtorFiles,
+                                             argvApplied := p.argvApplied || p.namesFiles args } args
+  have : (Parser.parse run p args).2
+      = Parser.prep { p with ctorApplied := p.ctorApplied || p.hasCtorFiles,
+                             argvApplied := p.argvApplied || p.namesFiles args } args := by
+    unfold Parser.parse
+    simp only
+    split <;> rfl
+  rw [this]
+  exact printHelp_after_table _ t ht
 
 /-! ### non-vacuity: a forest on which `--help` is produced, with a hidden field, a nested member,
     a default instance and a config file -/
